@@ -3311,8 +3311,13 @@ func (r *Resolver) verifyDNSSEC(ctx context.Context, signer, signed string, resp
 		}
 	}
 
-	// we don't need to verify rrsig questions.
-	if q.Qtype == dns.TypeRRSIG {
+	// The answer to an RRSIG question cannot be verified: signatures are not
+	// themselves signed, so it is handed back without AD. That holds for the
+	// answer only. The question type also rides on every referral and on
+	// every denial met while resolving it, and those still have to verify —
+	// otherwise an RRSIG query files a secure delegation with an empty DS set
+	// and lets a denial through unproven.
+	if q.Qtype == dns.TypeRRSIG && len(resp.Answer) > 0 {
 		return false, nil
 	}
 
